@@ -457,7 +457,7 @@ fn pieces(data: &[u8], pattern: &[usize]) -> Vec<Vec<u8>> {
 }
 
 fn segmentation_slice(ctx: &Ctx, plain: &LiveServer<()>, cn: &Cn) -> serde_json::Value {
-    let patterns: Vec<Vec<usize>> = vec![vec![96], vec![8], vec![4], vec![3, 2, 3], vec![1, 7], vec![7, 1], vec![1], vec![5], vec![12], vec![8, 3, 13]];
+    let patterns: Vec<Vec<usize>> = vec![vec![96], vec![8], vec![4], vec![3, 2, 3], vec![1, 7], vec![7, 1], vec![1], vec![5], vec![12], vec![8, 3, 13], vec![0]];
     let id = vh::tls::self_signed();
     let tls_srv = LiveServer::start(api(), (), ServerOpts { tls: Some(id.server_config()), ..Default::default() }).unwrap_or_else(|e| machinery_failure(&e));
     let ccfg = id.client_config();
@@ -473,12 +473,17 @@ fn segmentation_slice(ctx: &Ctx, plain: &LiveServer<()>, cn: &Cn) -> serde_json:
                 let got: Result<Vec<u8>, String> = if transport == "tcp" {
                     (|| {
                         let mut c = Conn::connect(plain.addr).map_err(|e| e.to_string())?;
-                        c.send(req.as_bytes()).map_err(|e| e.to_string())?;
+                        // `early`: the first records travel in the same write as the handshake (a client need not wait for the 101)
+                        let early = if pat[0] == 0 { 24 } else { 0 };
+                        let mut first = req.as_bytes().to_vec();
+                        first.extend_from_slice(&data[..early]);
+                        c.send(&first).map_err(|e| e.to_string())?;
                         let ReadOutcome::Resp(resp) = c.read_response(false, T) else { return Err("no response to the handshake".into()) };
                         if resp.status != 101 {
                             return Err(format!("status {}", resp.status));
                         }
-                        for p in pieces(&data, pat) {
+                        let pat: &Vec<usize> = &if early > 0 { vec![8usize] } else { pat.clone() };
+                        for p in pieces(&data[early..], pat) {
                             c.send(&p).map_err(|e| e.to_string())?;
                             std::thread::sleep(Duration::from_millis(3));
                         }
@@ -500,15 +505,19 @@ fn segmentation_slice(ctx: &Ctx, plain: &LiveServer<()>, cn: &Cn) -> serde_json:
                     (|| {
                         let mut c = vh::tls::TlsConn::connect(tls_srv.addr, &ccfg).map_err(|e| e.to_string())?;
                         c.handshake(T)?;
-                        let resp = c.roundtrip(req.as_bytes(), T)?;
+                        let early = if pat[0] == 0 { 24 } else { 0 };
+                        let mut first = req.as_bytes().to_vec();
+                        first.extend_from_slice(&data[..early]);
+                        let resp = c.roundtrip(&first, T)?;
                         if resp.status != 101 {
                             return Err(format!("status {}", resp.status));
                         }
+                        let pat: &Vec<usize> = &if early > 0 { vec![8usize] } else { pat.clone() };
                         if resp.header_str("sec-websocket-accept").as_deref() != Some(ref_accept(b"dGhlIHNhbXBsZSBub25jZQ==").as_str()) {
                             return Err("wrong Sec-WebSocket-Accept over TLS".into());
                         }
                         tls_upgrades += 1;
-                        for p in pieces(&data, pat) {
+                        for p in pieces(&data[early..], pat) {
                             c.write_raw(&p)?;
                             std::thread::sleep(Duration::from_millis(3));
                         }
